@@ -48,6 +48,7 @@ theorem step_sim (g : Gen) (seed : Nat) {c₁ c₂ : St} (h : Sim c₁ c₂) (in
       · simp only [step, e]; exact (h.world.set_seeded k _).set_seeded ch _
     | _ => simp [Instr.pure, Stream.isSeeded] at hp
   | output => exact ⟨h.world, h.hist, by simp [step, h.hist, h.outs]⟩
+  | memo site cache src => simp [Instr.pure] at hp
 
 theorem run_sim (g : Gen) (seed : Nat) : ∀ (p : List Instr) (c₁ c₂ : St),
     p.all Instr.pure = true → Sim c₁ c₂ → Sim (run g seed p c₁) (run g seed p c₂)
@@ -109,6 +110,7 @@ theorem run_simOn (g : Gen) (seed : Nat) : ∀ (p : List Instr) (i : List Nat) (
   | .output :: p, i, c₁, c₂, hw, h => by
     simp only [wfGo] at hw
     exact run_simOn g seed p i _ _ hw ⟨h.world, h.hist, by simp [step, h.hist, h.outs]⟩
+  | .memo _ _ _ :: p, i, c₁, c₂, hw, h => by simp [wfGo] at hw
 
 /-! ### algebra of `wfGo` / `after` -/
 
@@ -121,6 +123,7 @@ theorem wfGo_append : ∀ (p q : List Instr) (i : List Nat),
   | .fork par ch adv :: p, q, i => by
     cases par <;> simp [wfGo, after, wfGo_append p q, Bool.and_assoc]
   | .output :: p, q, i => by simp [wfGo, after, wfGo_append p q]
+  | .memo _ _ _ :: p, q, i => by simp [wfGo]
 
 theorem after_append : ∀ (p q : List Instr) (i : List Nat), after i (p ++ q) = after (after i p) q
   | [], _, _ => rfl
@@ -128,6 +131,7 @@ theorem after_append : ∀ (p q : List Instr) (i : List Nat), after i (p ++ q) =
   | .useSeed _ :: p, q, i => by simp [after, after_append p q]
   | .fork _ _ _ :: p, q, i => by simp [after, after_append p q]
   | .output :: p, q, i => by simp [after, after_append p q]
+  | .memo _ _ _ :: p, q, i => by simp [after, after_append p q]
 
 theorem subset_after : ∀ (p : List Instr) (i : List Nat), ∀ k ∈ i, k ∈ after i p
   | [], _, _, h => h
@@ -137,6 +141,7 @@ theorem subset_after : ∀ (p : List Instr) (i : List Nat), ∀ k ∈ i, k ∈ a
   | .fork _ c _ :: p, i, k, h => by
     simpa [after] using subset_after p (c :: i) k (List.mem_cons_of_mem _ h)
   | .output :: p, i, k, h => by simpa [after] using subset_after p i k h
+  | .memo _ _ _ :: p, i, k, h => by simpa [after] using subset_after p i k h
 
 theorem wfGo_mono : ∀ (p : List Instr) (i j : List Nat), (∀ k ∈ i, k ∈ j) →
     wfGo i p = true → wfGo j p = true
@@ -165,6 +170,7 @@ theorem wfGo_mono : ∀ (p : List Instr) (i j : List Nat), (∀ k ∈ i, k ∈ j
   | .output :: p, i, j, hs, h => by
     simp only [wfGo] at h ⊢
     exact wfGo_mono p i j hs h
+  | .memo _ _ _ :: p, i, j, hs, h => by simp [wfGo] at h
 
 /-- a piece that is fine whenever the streams in `need` exist can be appended anywhere they exist -/
 theorem wfGo_append_of (p q : List Instr) (i need : List Nat)
